@@ -13,18 +13,33 @@ CONSTANT CheckProps
 M == INSTANCE Monitors
 Rec == ndJsonDeserialize(IOEnv.TRACE)
 
-VARIABLES l, ps, open, cfg, failed, bid, stats
-vars == <<l, ps, open, cfg, failed, bid, stats>>
+VARIABLES l, ps, open, cfg, failed, bid, stats, kw
+vars == <<l, ps, open, cfg, failed, bid, stats, kw>>
 
 DummyCfg == [kind |-> "sync", cap |-> None, ttl |-> None, tti |-> None, weigher |-> FALSE,
              hconst |-> FALSE, hasher |-> "id", nkeys |-> NKeys]
-Init == l = 1 /\ ps = P02Init /\ open = {} /\ cfg = DummyCfg /\ failed = {} /\ bid = -1
+\* kw: C16 beside writers: for every key the (invoke, return) stamps of its writes, in order
+Init == l = 1 /\ ps = P02Init /\ open = {} /\ cfg = DummyCfg /\ failed = {} /\ bid = -1 /\ kw = <<>>
         /\ stats = [events |-> 0, behaviours |-> 0, nt |-> [p \in CheckProps |-> 0], viol |-> [p \in CheckProps |-> 0]]
 
 CfgOf(e) == [kind |-> e.kind, cap |-> e.cap, ttl |-> e.ttl, tti |-> e.tti, weigher |-> e.weigher,
              hconst |-> (e.hasher = "const"), hasher |-> e.hasher, nkeys |-> e.nkeys]
 
 SeqProps == {"C04", "C08", "C10", "C11"}
+
+\* C16 beside concurrent writers. Every key is written by one thread with sequence numbers
+\* 1, 2, ... (0 is the initial insert); nothing is ever removed. An iteration must yield every
+\* key exactly once, with a value that was current at some moment between its invocation and
+\* its return: written not after the return, and not overwritten before the invocation.
+WritesOf(k) == LET S == {i \in DOMAIN kw : kw[i].k = k} IN IF S = {} THEN <<>> ELSE kw[CHOOSE i \in S : TRUE].w
+IterOk(e) ==
+    /\ NoDup([i \in DOMAIN e.items |-> e.items[i].k])
+    /\ \A k \in 1..cfg.nkeys : \E i \in DOMAIN e.items : e.items[i].k = k
+    /\ \A i \in DOMAIN e.items :
+          LET w == WritesOf(e.items[i].k)  s == e.items[i].s IN
+          /\ s <= Len(w)
+          /\ (s > 0 => w[s][1] <= e.ret)
+          /\ (s < Len(w) => w[s + 1][2] >= e.inv)
 
 AllowedHere(p, e) ==
     CASE p = "C02" -> Allowed_C02(ps, e)
@@ -43,6 +58,7 @@ AllowedHere(p, e) ==
                  ELSE e.count <= e.cap + 2 * (e.wlog + e.threads)
             ELSE e.count <= e.cap
       [] p = "C03" -> e.ev = "Refill" => e.kept = e.want
+      [] p = "C16" -> e.ev = "IterRun" => IterOk(e)
       [] p \in SeqProps ->
             IF e.ev \in {"Sync", "End", "Panic", "Crash"}
             THEN M!AllowedBy(p, M!HInit(cfg), M!InitSnap(cfg), e) ELSE TRUE
@@ -53,13 +69,14 @@ NonTrivial(p, e) ==
       [] p = "C09" -> e.ev \in {"Ret", "Final", "Timeout", "Burst", "Settled"}
       [] p = "C04" /\ e.ev \in {"Overshoot", "Settled"} -> e.cap # None
       [] p = "C03" -> e.ev = "Refill"
+      [] p = "C16" -> e.ev = "IterRun"
       [] OTHER -> e.ev \in {"Sync", "End"}
 
 Next ==
     /\ l <= Len(Rec) /\ l' = l + 1
     /\ LET e == Rec[l] IN
        IF e.ev = "Config"
-       THEN /\ ps' = P02Init /\ open' = {} /\ cfg' = CfgOf(e) /\ failed' = {} /\ bid' = e.id
+       THEN /\ ps' = P02Init /\ open' = {} /\ cfg' = CfgOf(e) /\ failed' = {} /\ bid' = e.id /\ kw' = <<>>
             /\ stats' = [stats EXCEPT !.behaviours = @ + 1]
             /\ (l = Len(Rec) => PrintT(<<"STATS", ToJson(stats')>>))
        ELSE LET judged == CheckProps \ failed
@@ -74,6 +91,7 @@ Next ==
                             [] e.ev = "Ret" -> open \ {e.id}
                             [] OTHER -> open
                /\ UNCHANGED <<cfg, bid>>
+               /\ kw' = IF e.ev = "KeyWrites" THEN Append(kw, [k |-> e.k, w |-> e.w]) ELSE kw
                /\ stats' = st1
                /\ (l = Len(Rec) => PrintT(<<"STATS", ToJson(st1)>>))
 
